@@ -35,6 +35,26 @@ func lineCoverage(diags []Diagnostic) (lines []int) {
 	return lines
 }
 
+// SplitLines splits content into lines the same way the YAML parser counts them:
+// a line ends with \n, \r\n or a \r that is not followed by \n.
+func SplitLines(content string) (lines []string) {
+	var start int
+	for i := 0; i < len(content); i++ {
+		switch content[i] {
+		case '\n':
+			lines = append(lines, content[start:i])
+			start = i + 1
+		case '\r':
+			if i+1 < len(content) && content[i+1] == '\n' {
+				continue
+			}
+			lines = append(lines, content[start:i])
+			start = i + 1
+		}
+	}
+	return append(lines, content[start:])
+}
+
 func InjectDiagnostics(content string, diags []Diagnostic, color output.Color) string {
 	lines := lineCoverage(diags)
 	lastLine := slices.Max(lines)
@@ -67,7 +87,7 @@ func InjectDiagnostics(content string, diags []Diagnostic, color output.Color) s
 	nrFmt := fmt.Sprintf("%%%dd", digits)
 
 	var lastWriteLine int
-	for lineIndex, line := range strings.Split(content, "\n") {
+	for lineIndex, line := range SplitLines(content) {
 
 		if lineIndex+1 > lastLine {
 			break
